@@ -108,51 +108,91 @@ class C05(F.PropCheck):
         return None
 
     def keepalive(self, case, outs, msgs, conns, J):
-        """keep-alive clause; evaluated only on cases whose events make its premises true (prompt responder, healthy link)"""
+        """keep-alive clause, judged per session (connection with an accepted registration) on the interval in which the events of the
+        case make its premises true: responder on with a delay < 1 s when the registration is accepted, and from then on no disturbance
+        (DISCCB / WIFI event, failing espconn_sent, responder switched off or slowed down); every ping of the interval answered within 1 s"""
         v = []; c = K(); evs = case.evs
         boot = evs[0][1][0] if evs and evs[0][0] == 'CFG' and evs[0][1] else 0
-        # premises (from the events of the case): the responder is on with a delay < 1 s from before the connection on and is never changed to
-        # something slower; healthy link: no SENTMODE/SENTRES/DISCCB/WIFI events after the first CONNCB; no refusal (checked below)
-        seen_conn = False; responder = False
+        lo = max(5, c['PING_WINDOW_MINUS']); hi = min(c['WATCHDOG_TIMEOUT_S'], c['WATCHDOG_SOFT_TIMEOUT_S'] - 1) - 2      # 5..58
+        D = c['RECONNECT_DELAY_MS'] * 1000
+        te = []; t = 0                                  # nominal time at which event i is handled (never later than the true one)
         for (k, ints, _) in evs:
-            if k == 'CONNCB':
-                if not responder: return v
-                seen_conn = True
-            if k in ('SENTMODE', 'SENTRES') and any(x != 0 for x in ints): return v
-            if seen_conn and k in ('DISCCB', 'WIFI'): return v
-            if k == 'SERVER':
-                if not (0 <= ints[0] < S): return v
-                responder = True
-        if not seen_conn: return v
-        st = None; tok = None
+            te.append(t)
+            if k == 'ADV' and ints and ints[0] > 0: t += ints[0]
+        rxi = {}                                        # (time, conn) of a delivery -> index of the RECV event
+        for (k, ints, _) in outs:
+            if k == 'RX': rxi.setdefault((ints[0], ints[1]), ints[2])
+        tend = max([ints[0] for (k, ints, _) in outs if ints and k in ('STATE', 'RESTART')] or [0])
+        discd = sorted(ints[0] for (k, ints, _) in outs if k == 'DISCD')
+        wifistart = sorted(ints[0] for (k, ints, _) in outs if k == 'WIFISTART')
+        def excused(t):
+            """a delayed reconnect (armed by the disconnect callback, 2 s) that no later start() cancelled is due at t"""
+            return any(td < t <= td + D + J and not any(td < w < t for w in wifistart) for td in discd)
+        # sessions: first accepted register result of each connection
+        sess = {}
         for (t, n, call, pay) in msgs:
             if call == c['SRV_REGISTER_RESULT'] and len(pay) == c['SZ_REGISTER_RESULT']:
-                if struct.unpack_from('<i', pay, c['OFF_RESULT_CODE'])[0] != c['RESULTCODE_TRUE']: return v
-                if tok is None: tok = t; T = pay[c['OFF_RESULT_TIMEOUT']]; cn = n
-            elif call == c['SRV_SET_ACTIVITY_TIMEOUT_RESULT'] and tok is not None: T = pay[c['OFF_SAT_RESULT_TIMEOUT']]
-            elif call in (c['SRV_VERSIONERROR'],): return v
-        # the theorem's range: KA_MIN = max(5, window) <= T <= KA_WD_MAX = min(watchdog, soft watchdog - 1) - 2  (5..58 on this tree)
-        lo = max(5, c['PING_WINDOW_MINUS']); hi = min(c['WATCHDOG_TIMEOUT_S'], c['WATCHDOG_SOFT_TIMEOUT_S'] - 1) - 2
-        if tok is None or not (lo <= T <= hi): return v
-        # every ping answered promptly: each WIRE ping at t has a server delivery in (t, t + 1 s]
-        pings = [ints[0] for (k, ints, _) in outs if k == 'WIRE' and ints[1] == cn and ints[2] == c['CALL_PING']]
-        deliveries = sorted(t for (t, n, call, pay) in msgs if n == cn)
-        tend = max([ints[0] for (k, ints, _) in outs if ints and k in ('STATE', 'RESTART')] or [0])
-        for p in pings:
-            if p + S <= tend and not any(p <= t <= p + S for t in deliveries): return v
-        # (1) never reconnects or restarts
-        for (k, ints, _) in outs:
-            if k in ('DISCONNECT', 'WIFISTART', 'RESTART') and ints[0] > tok:
-                msg = 'keep-alive: %s at %d us although registered (timeout %d s) and every ping was answered promptly' % (k, ints[0], T)
-                v.append(msg + self.starved(outs, cn, T, J, deliveries, ints[0], boot)); break
-        # (2) a frame in every window of T seconds (from the registration answer on)
-        sends = sorted(ints[0] for (k, ints, _) in outs if k == 'WIRE' and ints[1] == cn and ints[0] >= tok)
-        prev = tok
-        for t in sends + [tend]:
-            if t - prev > T * S + J and not v:
-                v.append('keep-alive: no frame on the wire between %d and %d us (timeout %d s)' % (prev, t, T)); break
-            prev = t
+                ok = struct.unpack_from('<i', pay, c['OFF_RESULT_CODE'])[0] == c['RESULTCODE_TRUE']
+                if n not in sess: sess[n] = dict(tok=t, T=pay[c['OFF_RESULT_TIMEOUT']], ok=ok, refused=not ok)
+                elif not ok: sess[n]['refused'] = True
+            elif call == c['SRV_SET_ACTIVITY_TIMEOUT_RESULT'] and len(pay) == c['SZ_SET_ACTIVITY_TIMEOUT_RESULT'] and n in sess and sess[n]['ok']:
+                sess[n]['T'] = pay[c['OFF_SAT_RESULT_TIMEOUT']] if t <= sess[n]['tok'] + S else -1      # re-negotiation later in the session: not judged
+            elif call == c['SRV_VERSIONERROR'] and n in sess: sess[n]['refused'] = True
+        for cn in sorted(sess):
+            d = sess[cn]; tok = d['tok']; T = d['T']
+            if not d['ok'] or d['refused'] or not (lo <= T <= hi): continue
+            i_ok = rxi.get((tok, cn))
+            if i_ok is None: continue
+            # the connection of this session must have been opened on a link that is healthy from its connect callback on
+            fresh_t = conns.get(cn, {}).get('t0')
+            if fresh_t is None: continue
+            # responder state when the connection was opened / the registration accepted, espconn_sent results
+            resp = None; bad_send = False; i_conn = None
+            for i, (k, ints, _) in enumerate(evs[:i_ok]):
+                if k == 'SERVER': resp = ints[0]
+                elif k == 'SENTMODE': bad_send = ints[0] != 0
+                elif k == 'SENTRES': bad_send = bad_send or any(x != 0 for x in ints)
+                elif k == 'CONNCB' and te[i] <= fresh_t: i_conn = i
+            if resp is None or not (0 <= resp < S) or bad_send: continue
+            if any(k == 'SERVER' and not (0 <= ints[0] < S) for (k, ints, _) in evs[(i_conn or 0):i_ok]): continue
+            if any(k == 'SENTRES' for (k, ints, _) in evs[:i_ok]): continue       # a result script may still be pending
+            # first disturbance after the acceptance
+            t_dist = tend
+            for i in range(i_ok + 1, len(evs)):
+                k, ints, _ = evs[i]
+                if k in ('DISCCB', 'WIFI', 'CONNCB') or (k in ('SENTMODE', 'SENTRES') and any(x != 0 for x in ints)) or \
+                   (k == 'SERVER' and not (0 <= ints[0] < S)) or (k == 'RECV' and self.disturbing(evs[i][2], te[i] <= tok + S)):
+                    t_dist = min(t_dist, te[i]); break
+            if t_dist <= tok: continue
+            # every ping of the interval answered promptly: each WIRE ping at p has a server delivery in [p, p + 1 s]
+            pings = [ints[0] for (k, ints, _) in outs if k == 'WIRE' and ints[1] == cn and ints[2] == c['CALL_PING'] and tok <= ints[0] < t_dist]
+            deliveries = sorted(t for (t, n, call, pay) in msgs if n == cn)
+            if any(p + S <= t_dist and not any(p <= t <= p + S for t in deliveries) for p in pings): continue
+            # (1) never reconnects or restarts
+            bad = False
+            for (k, ints, _) in outs:
+                if k in ('DISCONNECT', 'WIFISTART', 'RESTART') and tok < ints[0] < t_dist and not excused(ints[0]):
+                    msg = 'keep-alive: %s at %d us although registered on connection %d (timeout %d s) and every ping was answered promptly' % (k, ints[0], cn, T)
+                    v.append(msg + self.starved(outs, cn, T, J, deliveries, ints[0], boot)); bad = True; break
+            if bad: break
+            # (2) a frame in every window of T seconds (from the registration answer on)
+            sends = sorted(ints[0] for (k, ints, _) in outs if k == 'WIRE' and ints[1] == cn and tok <= ints[0] < t_dist)
+            closed = [ints[0] for (k, ints, _) in outs if k in ('DISCONNECT', 'DISCD', 'RESTART') and tok < ints[0] < t_dist]
+            prev = tok
+            for t in sends + [min([t_dist] + closed)]:
+                if t - prev > T * S + J:
+                    v.append('keep-alive: no frame on the wire between %d and %d us (connection %d, timeout %d s)' % (prev, t, cn, T)); bad = True; break
+                prev = t
+            if bad: break
         return v
+    def disturbing(self, data, sat_ok=False):
+        """server bytes that end the healthy interval of a session: anything but whole ping results / channel-state requests
+        (a refusal, a version error, a new timeout later than 1 s after the acceptance, malformed bytes change what the device has to do)"""
+        c = K(); fr = c04.CHECK.server_frames([(0, bytes(data))]); n = 0
+        for (_, call, pay) in fr:
+            if call not in (c['SRV_PING_RESULT'], c['SRV_GET_CHANNEL_STATE']) and not (sat_ok and call == c['SRV_SET_ACTIVITY_TIMEOUT_RESULT']): return True
+            n += c['SDP_SIZE'] - c['MAX_DATA_SIZE'] + len(pay) + len(bytes(c['TAG']))
+        return n != len(data)
 
     def starved(self, outs, cn, T, J, deliveries, t_d, boot=0):
         """signature of the known finding: after the last response no ping reached the wire, and at every timer1 tick of the ping window
@@ -258,6 +298,32 @@ class C05(F.PropCheck):
                 if T != 10: evs += [('ADV', [150000], b''), ('RECV', [], sat_result(T, 2))]
                 evs += self.local_traffic(rng, rng.choice([5, 8, 15, 25, 40, 55, 70]) * S + rng.randrange(0, S), rng.choice(['none', 'periodic', 'random']))
             evs += self.local_traffic(rng, rng.choice([3, 20]) * S, 'none')
+        elif k < 0.30 and not aged:
+            # the server goes silent and then drops the TCP connection delta < 2 s BEFORE the device's own activity-timeout reconnect (first
+            # timer1 tick with T+10 whole seconds of silence): the disconnect callback arms the 2 s delayed reconnect, the device's own
+            # stop()/start() must cancel it; the link comes back fast (registered again ~0.5 s later, prompt server): the new session is
+            # healthy and must not be torn down by the stale one-shot timer.  Other deltas: the drop after the device's reconnect / long before
+            T = rng.choice([10, 10, 15, 20, 30, 45, rng.randrange(10, 51)]); tags.add('drop-before-own-reconnect'); tags.add('T<=50')
+            boot = evs[0][1][0]
+            a, b, c_ = rng.choice([100000, 250000, 300000]), rng.choice([200000, 250000, 400000]), rng.choice([100000, 300000, 450000])
+            evs += [('SERVER', [-1], b''), ('ADV', [a], b''), ('WIFI', [5], b''), ('ADV', [b], b''), ('CONNCB', [], b''), ('ADV', [c_], b''), ('RECV', [], reg_result(3, T, 1))]
+            tR = a + b + c_; t = tR
+            if T != 10: evs += [('ADV', [150000], b''), ('RECV', [], sat_result(T, 2))]; tR += 150000; t = tR
+            # device's own reconnect: first whole-second tick k*S (timer1 armed at start-up, period 1 s) with sec(k*S) - sec(tR) >= T + 10
+            kk = tR // S + 1
+            while (boot + kk * S) // S - (boot + tR) // S < T + 10: kk += 1
+            tk = kk * S
+            delta = rng.choice([200000, 400000, 700000, 1000000, 1300000, 1450000, rng.randrange(100000, 1500000), rng.choice([1700000, 1950000, 2500000, -300000])])
+            td = tk - delta
+            evs += self.local_traffic(rng, td - t, 'none') if td > t else []
+            evs.append(('DISCCB', [], b''))
+            t2 = max(tk + 30000, td) if delta >= 0 else td
+            if t2 > td: evs.append(('ADV', [t2 - td], b''))
+            d = rng.choice([0, 50000, 100000])
+            evs += [('SERVER', [d], b''), ('WIFI', [5], b''), ('ADV', [rng.choice([250000, 300000])], b''), ('CONNCB', [], b''), ('ADV', [rng.choice([110000, 150000])], b''),
+                    ('RECV', [], reg_result(3, T, 1))]
+            if T != 10: evs += [('ADV', [100000], b''), ('RECV', [], sat_result(T, 2))]
+            evs += self.local_traffic(rng, (T + rng.choice([8, 15, 30])) * S, rng.choice(['none', 'none', 'periodic']))
         elif k < 0.45:
             # granted timeout T over the whole range of the theorem (5..58); when the register result carries another value T0 the device
             # asks for 10 and the set-activity-timeout result grants T (any min / max bytes): the schedule must follow the granted value
